@@ -331,5 +331,30 @@ class Verdicts:
         return 1 if self.new else 0
 
 
+class Spinning(BaseException):
+    """the code under test did not give control back within the deadline (a busy loop inside one step)"""
+
+
+class deadline:
+    """with deadline(20): ...   raises Spinning in the main thread after that many seconds of wall-clock time (SIGALRM)"""
+    def __init__(self, seconds):
+        self.seconds = seconds
+
+    def __enter__(self):
+        import signal
+
+        def fire(signum, frame):
+            raise Spinning()
+        self.old = signal.signal(signal.SIGALRM, fire)
+        signal.setitimer(signal.ITIMER_REAL, self.seconds)
+        return self
+
+    def __exit__(self, *a):
+        import signal
+        signal.setitimer(signal.ITIMER_REAL, 0)
+        signal.signal(signal.SIGALRM, self.old)
+        return False
+
+
 def jhash(x):
     return hashlib.sha1(json.dumps(x, sort_keys=True, default=str).encode()).hexdigest()[:16]
